@@ -97,10 +97,13 @@ def run_units(c, facts, rule_prefix='C16', scope=None, must=None, floors=True):
                     else:
                         c.skip(R2, '%s:%s' % (f2.qname, name), 'accumulator without an inferred unit')
     if floors:
-        c.floor(R2, 'accumulators analysed', nacc, 7)
+        # 7 today; a scan rewritten with iterator adaptors (`take_while(..).count()`) legitimately has none of its own:
+        # the two LSP conversions must keep theirs (or the rule is no longer looking at them), the primitive itself is
+        # exercised on the fixture crate on every run
+        c.floor(R2, 'accumulators analysed', nacc, 4)
         c.floor(R1, 'functions analysed', len([q for q in (scope or SCOPE) if facts.fn(q)]), 12)
     else:
-        c.floor(R2, 'accumulators analysed', nacc, 1)
+        c.floor(R2, 'accumulators analysed', nacc, 0)
         c.floor(R1, 'functions analysed', len([q for q in (scope or SCOPE) if facts.fn(q)]), len(must or []))
 
 
